@@ -131,7 +131,8 @@ def make_history_archive(rng, path):
     n = int(rng.integers(2, 9))
     xg = np.geomspace(10 ** rng.uniform(-5, -1), 1.0, n)
     tc, oc = workload.cards(workload.raw_theory(order=(1, 0)), workload.raw_operator(xgrid=xg, mugrid=((10.0, 5),)))
-    eps = random_scales(rng, int(rng.integers(2, 5)))
+    # float scales only: EKO.approx asserts isinstance(scale, float) and trips on points stored with python-int scales
+    eps = [(float(s), nf) for s, nf in random_scales(rng, int(rng.integers(2, 5)))]
     a = int(rng.choice([1, 2, 14]))
     modes = ["two-pass", "approx-reassign", "numpy-key", "flip", "plain", "late"]
     plan = [(s, nf, modes[(j + int(rng.integers(0, 2))) % len(modes)] if j else modes[int(rng.integers(0, 2))]) for j, (s, nf) in enumerate(eps)]
